@@ -31,6 +31,8 @@ def run(ctx):
     for m in ('get', 'put'):
         nt += lru.touch(ctx, fx, LM + m, 'containers::specialized::lru_map::LruNode::value')
     ctx.instance('R-TOUCH.accesses', nt)
+    ctx.instance('R-ORDER.evict.sites', lru.evict_only_for_new(ctx, fx, LM + 'put', 'containers::specialized::lru_map::LruNode::value'))
+    ctx.floor('R-ORDER.evict.sites', 1)
     ctx.floor('R-TOUCH.accesses', 2)
     lru.list_ops_under_index_lock(ctx, fx, 'src/containers/specialized/lru_map.rs', 'lru_map::LruMap', 'LruMap::hash_map')
     ctx.floor('R-LOCKCOV.lru.sites', 3)
